@@ -16,7 +16,7 @@ RULE = ("(a) in-memory reader histories (per-record Site values: Standard counts
         "t_j = 0, m_j = 0 - compared with the exact model within 1e-9; (b) random call sets through `sfs create "
         "--project-shape/-p --precision p`: every printed value within 0.5*10^-p + 1e-9*records of the model, exit "
         "status, summary; cohorts of 100-300 samples; -p i vs --project-shape 2i+1 must print identical bytes; builder "
-        "errors (dimension mismatch, too large, zero). non-trivial = at least one Projected site")
+        "errors (dimension mismatch, too large, zero). non-trivial = at least one Projected site; cohorts of 520-640 samples include monomorphic, singleton, nearly fixed and fixed sites (boundary terms of the log-space kernel)")
 
 
 def scale_of(case):
@@ -127,6 +127,10 @@ def check(rep, tier, seed):
             recs.append(["1/1"] + ["0/0"] * (n - 1)); recs.append(["0/0"] * n); recs.append(["1/1"] * n)
             m = rng.choice([10, 20, 2 * n - 2, 2 * n - 1])
         else:
+            # in the log-space branch, too, the boundary terms matter: monomorphic, singleton, doubleton, nearly fixed and
+            # fixed sites put C(a, a), C(a, 0), C(t - a, t - a) into the kernel (all of them 1, i.e. ln = 0)
+            recs.append(["0/1"] + ["0/0"] * (n - 1)); recs.append(["1/1"] * (n - 1) + ["0/1"]); recs.append(["1/1", "./."] + ["0/0"] * (n - 2))
+            recs.append(["0/0"] * n); recs.append(["1/1"] * n); recs.append(["0/0"] * (n - 1) + ["./."])
             m = rng.choice([n, n + 1, 2 * n - 40, n // 2 * 2 + 1])
         big_jobs.append((["create", "--precision", "9", "--project-shape", str(m + 1)], render_vcf(cols, recs)))
         big_meta.append((n, m, recs))
